@@ -1,9 +1,9 @@
 #!/bin/bash
 # usage: rf_probe.sh Cxx : applies each /tmp/rf/out/Cxx/refactor_N.diff to the clean worktree /tmp/rf/Cxx and runs all checks
 export GOFLAGS=-mod=mod GOPROXY=off GOSUMDB=off GOTOOLCHAIN=local; unset GOWORK
-id=$1; WT=/tmp/rf/$id
+id=$1; WT=${RFBASE:-/tmp/rf}/$id
 for n in 1 2 3; do
-  d=/tmp/rf/out/$id/refactor_$n.diff
+  d=${RFBASE:-/tmp/rf}/out/$id/refactor_$n.diff
   [ -s "$d" ] || { echo "RF $id#$n MISSING"; continue; }
   git -C $WT checkout -q -- . ; git -C $WT clean -fdq
   if ! git -C $WT apply "$d" 2>/dev/null; then echo "RF $id#$n APPLY-FAILED"; continue; fi
